@@ -521,11 +521,11 @@ fn rows_apt_release() -> Vec<Row> {
     v.push(strvec_row!(arel, "changelogs", "Changelogs", "https://old.example.com/changelogs/@CHANGEPATH@",
         ["https://metadata.ftp-master.debian.org/changelogs/@CHANGEPATH@_changelog", "https://example.com/c/@CHANGEPATH@"], set_changelogs, changelogs));
     v.push(arel!("date", "Date", "Mon, 01 Jan 2001 00:00:00 +0000", clear = false,
-        values = [date("2024-03-09T10:11:12+00:00"), date("2025-12-31T23:59:59+00:00")],
+        values = [date("2024-03-09T10:11:12+00:00"), date("2025-12-31T23:59:59+00:00"), date("2023-12-02T08:19:33+02:00"), date("2024-06-30T23:30:00-05:30")],
         set = |s, x| s.set_date(x), clear_set = |_s| (), clear_want = "None",
         get = |s| s.date(), want = |x| Some(x)));
     v.push(arel!("valid_until", "Valid-Until", "Mon, 01 Jan 2001 00:00:00 +0000", clear = false,
-        values = [date("2024-03-16T10:11:12+00:00"), date("2026-01-07T23:59:59+00:00")],
+        values = [date("2024-03-16T10:11:12+00:00"), date("2026-01-07T23:59:59+00:00"), date("2023-12-09T08:19:33+02:00"), date("2024-07-07T23:30:00-05:30")],
         set = |s, x| s.set_valid_until(x), clear_set = |_s| (), clear_want = "None",
         get = |s| s.valid_until(), want = |x| Some(x)));
     // bool fields have only two raw values: the prior value is the opposite of value #0
